@@ -485,6 +485,10 @@ class MonitorPP(Base):
 
         def plan():
             yield from bps.open_run()
+            if self.params.get("late"):
+                # a first pause -> resume BEFORE any monitor exists in the run
+                yield from bps.checkpoint()
+                yield Msg("pause")
             yield from bps.monitor(d["sig"], name="sig_monitor")
             yield from bps.checkpoint()
             d["sig"].put(10)
@@ -704,3 +708,29 @@ class MonitorDoc(Base):
             yield from bps.close_run()
 
         return plan()
+
+
+@register
+class LateFail(Base):
+    """A status that outlives its call: the plan triggers the detector (0.5 s) and ends without waiting; the NEXT call
+    (the probe: a 1 s sleep) is running when that status finishes.  A late failure belongs to the call that started it."""
+
+    id = "latefail"
+    quick_caller = True  # the next call starts before the pending status finishes
+
+    def devices(self, ctx):
+        return {"det": FakeDet(ctx, "det", is_async=self.a, trigger=("delay", 0.5), stageable=False)}
+
+    def plan(self, d):
+        from bluesky.utils import Msg
+
+        def plan():
+            yield Msg("trigger", d["det"], group="g")
+            yield Msg("null", None, "end")
+
+        return plan()
+
+    def probe_plan(self, d):
+        from bluesky.utils import Msg
+
+        return [Msg("null", None, "next-call"), Msg("sleep", None, 1.0), Msg("null", None, "next-call-end")]
